@@ -410,7 +410,7 @@ int main(int argc, char** argv) {
       appendResult(r);
       flushShared();
       sh->done = bad + 1;
-      ++abnormal;
+      abnormal += (r == "@timeout") ? 5 : 1;      // hangs are expensive (a full CPU alarm each): at most 5 per run
     }
     fclose(errf);
   }
